@@ -105,9 +105,9 @@ type SConn struct {
 	readerGone atomic.Bool
 	// NoPingAck: from now on the client's PINGs are recorded but not acknowledged (a server gone silent)
 	NoPingAck atomic.Bool
-	hsErr      error
-	wmu        sync.Mutex
-	wrote      []Wrote
+	hsErr     error
+	wmu       sync.Mutex
+	wrote     []Wrote
 }
 
 // Env owns the client under test and every connection it dials.
@@ -141,6 +141,18 @@ func NewEnv(opts http2.ClientOpts, plan ...ConnPlan) (*Env, error) {
 	}
 	e.CL = http2.ClientFrom(e.HC)
 	return e, nil
+}
+
+// DialBare dials one connection through http2.Dialer (not through ConfigureClient / a HostClient) to a scripted
+// server, with the given connection options. The caller drives it with Conn.Write(&http2.Ctx{...}).
+func DialBare(opts http2.ConnOpts, plan ...ConnPlan) (*http2.Conn, *Env, error) {
+	if len(plan) == 0 {
+		plan = []ConnPlan{{}}
+	}
+	e := &Env{Plan: plan, QuiesceTimeout: 10 * time.Second}
+	d := &http2.Dialer{Addr: "example.com:443", TLSConfig: &tls.Config{InsecureSkipVerify: true, ServerName: "example.com"}, NetDial: e.dial, PingInterval: opts.PingInterval}
+	c, err := d.Dial(opts)
+	return c, e, err
 }
 
 func (e *Env) dial(addr string) (net.Conn, error) {
